@@ -342,6 +342,35 @@ structure RefV (r : Nat) (vals : Vals) (E : NEnv) : Prop where
   eq : ∀ x, vals.valOf r x = E.valOf r x
   bok : vals.bok
 
+/-! ## kinds: which of the library's types a tracked scalar has -/
+
+/-- the type of a scalar object: `none` for a plain int, else `LinComb` / `LinCombBool` / `LinCombFxp` -/
+def SVal.kind : SVal → Option TKind
+  | .pub _ => none
+  | .sc k _ _ => some k
+
+/-- the types of the scalars of a value, in its list structure -/
+abbrev KTree := PTree (Option TKind)
+
+def TVal.kinds (t : TVal) : KTree := t.map SVal.kind
+
+/-- the types a tracked variable holds (`none`: unbound) -/
+def Vals.kindOf (vs : Vals) (x : Nat) : Option KTree := (vs.get? x).map TVal.kinds
+
+def ILeaf.kind : ILeaf → TKind
+  | .int _ => .int
+  | .bool _ => .bool
+  | .fxp _ _ => .fxp
+
+/-- the types an initial value is created with: `PrivVal(v)` a `LinComb`, `PrivVal(v) == 1` a
+`LinCombBool`, `PrivValFxp(q)` a `LinCombFxp` -/
+def IVal.kinds (v : IVal) : KTree := v.map (fun a => some a.kind)
+
+/-- the types the initial bindings give to `x` (`ctx.x = …` in order: the last binding counts) -/
+def initKinds : List (Nat × IVal) → Nat → Option KTree → Option KTree
+  | [], _, acc => acc
+  | (y, v) :: rest, x, acc => initKinds rest x (if y = x then some v.kinds else acc)
+
 /-- every scalar of a value is coherent with its wire expression -/
 def CohT (s : St) (t : TVal) : Prop := t.AllP (SVal.lcP (Coh s))
 
